@@ -447,7 +447,17 @@ func (m *monC07) Quiescent(td *TD, p Pending) *Viol {
 	return nil
 }
 
-func (m *monC07) End(td *TD) *Viol { return m.Quiescent(td, Pending{}) }
+func (m *monC07) End(td *TD) *Viol {
+	if v := m.Quiescent(td, Pending{}); v != nil {
+		return v
+	}
+	// the run is over (nothing runnable, no timer): a settled hand must have been left behind
+	st := td.table().State
+	if td.env.PendingTimers() == 0 && st.Status == pt.TableStateStatus_TableGameSettled {
+		return &Viol{Key: "never-left-settled", Detail: fmt.Sprintf("hand %d was settled, nothing is runnable and no timer is pending, but the table still shows status %s with the hand's state in place (it never reached standby)", st.GameCount, st.Status)}
+	}
+	return nil
+}
 
 // ---------------------------------------------------------------------------------------------
 // C08
